@@ -542,7 +542,7 @@ pub fn replay(exe: &Path, path: &Path) -> i32 {
     };
     if rf.process_death {
         let expect_hang = rf.signature.contains("does not return");
-        let limit = if expect_hang { Duration::from_secs(20) } else { hang_limit() };
+        let limit = if expect_hang { Duration::from_secs(10) } else { hang_limit() };
         let end = run_child(Command::new(exe).arg("replay-case").arg(path), limit);
         return match (end, expect_hang) {
             (ChildEnd::Signaled(sig), false) => {
@@ -655,15 +655,15 @@ fn minimise_crash(exe: &Path, case: AnyCase, scratch: &Path, hang: bool) -> (Any
         if std::fs::write(&f, serde_json::to_string(c).unwrap_or_default()).is_err() {
             return false;
         }
-        // a healthy case runs in milliseconds: ten seconds without an exit is a hang
-        let end = run_child(Command::new(exe).arg("replay-case").arg(&f), Duration::from_secs(10));
+        // a healthy case runs in milliseconds: seconds without an exit is a hang
+        let end = run_child(Command::new(exe).arg("replay-case").arg(&f), Duration::from_secs(if hang { 3 } else { 20 }));
         match end {
             ChildEnd::Signaled(_) => !hang,
             ChildEnd::TimedOut => hang,
             _ => false,
         }
     };
-    shrink::shrink(case, |c| c.candidates(), dies, |c| serde_json::to_string(c).unwrap_or_default(), if hang { 60 } else { 250 })
+    shrink::shrink(case, |c| c.candidates(), dies, |c| serde_json::to_string(c).unwrap_or_default(), if hang { 40 } else { 250 })
 }
 
 // ---------------------------------------------------------------------------
@@ -738,9 +738,9 @@ pub fn check(exe: &Path, prop: &str, tier: Tier) -> i32 {
     for c in &crashes {
         let was_hang = c.how.contains("hang backstop");
         if was_hang {
-            // every hung worker costs a full backstop period to re-examine; two are enough
+            // every hung worker costs a backstop period to re-examine; one is enough
             hangs_handled += 1;
-            if hangs_handled > 2 {
+            if hangs_handled > 1 {
                 continue;
             }
         }
